@@ -302,6 +302,23 @@ func VerifyUnit(prog *Program, cs *ContractSet, uc *UnitContract) *UnitResult {
 		}
 		x.retBind = nil
 	}
+	for _, fc := range uc.FPChecks {
+		if !on(fc.Tags) {
+			continue
+		}
+		failure, bindErr := x.runFPCheck(fc, fu)
+		if bindErr != "" {
+			res.Errors = append(res.Errors, fmt.Sprintf("contract cannot bind: %s fp-exhaustive %s: %s", uc.ID(), fc.Name, bindErr))
+			continue
+		}
+		f := failure
+		goal := True
+		if f != "" {
+			goal = False
+		}
+		x.obligations = append(x.obligations, &Obligation{Name: fmt.Sprintf("%s/fp-exhaustive:%s", uc.ID(), fc.Name), Unit: uc.ID(), Kind: "fp-exhaustive", Tags: fc.Tags,
+			PC: True, Goal: goal, NAss: 0, Text: fmt.Sprintf("for every %s in %d..%d, evaluated with float64 arithmetic on the real statements: %s", fc.Var, fc.Lo, fc.Hi, exprText(fc.Check)), exec: x, Concrete: &f})
+	}
 	for _, as := range uc.AtStmts {
 		if as.Used == 0 {
 			res.Errors = append(res.Errors, fmt.Sprintf("contract cannot bind: %s: no statement starts with %q", uc.ID(), as.Anchor))
